@@ -2,7 +2,9 @@
 from common import SYNC_RW, RAFT_ENV  # noqa: F401
 
 CHECK = {'level': 'model_checking',
- 'rule': 'BFS over put/delete(/get) histories on a fixed key universe; a state is distinct by (stack, sorted content, '
+ 'rule': 'BFS over put/delete(/get, and for the cache a put under an already cancelled context, which either takes '
+         'effect or leaves no trace) histories on a fixed key universe, incl. cache stacks with a small configured size '
+         'and with transactional writes read back through the parent; a state is distinct by (stack, sorted content, '
          'per-key last-op kind); every transition replays the history on a fresh real instance and compares the whole '
          'read battery (get/list/listpage x prefixes x after x limit) with a sorted-map reference; non-trivial = '
          'distinct (stack, canonical state)',
